@@ -22,20 +22,31 @@ def main():
     ap.add_argument("--seed", default="2")
     ap.add_argument("--only", default=None)
     ap.add_argument("--seconds", default=None)
+    ap.add_argument("--jobs", type=int, default=1)
     a = ap.parse_args()
-    rows = []
-    for d in sorted(glob.glob(os.path.join(HERE, "seeded", "*"))):
+    dirs = [d for d in sorted(glob.glob(os.path.join(HERE, "seeded", "*"))) if not a.only or a.only in os.path.basename(d)]
+    from concurrent.futures import ThreadPoolExecutor
+
+    with ThreadPoolExecutor(max_workers=max(1, a.jobs)) as pool:
+        rows = [r for r in pool.map(lambda d: one(d, a), dirs) if r is not None]
+    write(rows, a)
+    return 0
+
+
+def one(d, a):
+    if True:
         name = os.path.basename(d)
-        if a.only and a.only not in name:
-            continue
         meta = json.load(open(os.path.join(d, "meta.json")))
         by = re.findall(r"C\d\d", meta.get("caught_by", "") or "") or [meta["breaks_property"]]
         if "not caught" in (meta.get("caught_by") or ""):
-            rows.append((name, meta.get("change", ""), {"-": "NOT-JUDGED (see meta.json)"}))
-            continue
+            return (name, meta.get("change", ""), {"-": "NOT-JUDGED (see meta.json)"})
         wt = f"/tmp/matrix_{name}"
         sh(["git", "-C", "/repo", "worktree", "remove", "--force", wt])
-        rc, out = sh(["git", "-C", "/repo", "worktree", "add", "-q", wt, "HEAD"])
+        for _try in range(6):  # (parallel jobs may collide on git's own lock)
+            rc, out = sh(["git", "-C", "/repo", "worktree", "add", "-q", wt, "HEAD"])
+            if rc == 0:
+                break
+            time.sleep(1.0 + _try)
         res = {}
         try:
             rc, out = sh(["git", "apply", os.path.join(d, "patch.diff")], cwd=wt)
@@ -53,10 +64,14 @@ def main():
                         break
         finally:
             sh(["git", "-C", "/repo", "worktree", "remove", "--force", wt])
-        rows.append((name, meta.get("change", meta.get("needs_to_manifest", "")), res))
         print(name, res, flush=True)
+        return (name, meta.get("change", meta.get("needs_to_manifest", "")), res)
+
+
+def write(rows, a):
+    head = subprocess.run(["git", "-C", "/repo", "rev-parse", "--short", "HEAD"], capture_output=True, text=True).stdout.strip()
     with open(os.path.join(HERE, "SEED_MATRIX.md"), "w") as f:
-        f.write(f"# Seeded changes vs. the registered quick checks (VERIF_SEED={a.seed}, default budget)\n\n")
+        f.write(f"# Seeded changes vs. the registered quick checks (VERIF_SEED={a.seed}, {a.seconds or 'default'} s per shard, /repo at {head})\n\n")
         f.write("Produced by `tools/seed_matrix.py`; each patch applied in a scratch worktree, checks run through TAWAZI_SRC.\n\n")
         f.write("| seeded change | what | result |\n|---|---|---|\n")
         for name, what, res in rows:
